@@ -16,13 +16,17 @@ RULE = (
     "random character edits, and strings of lexically awkward fragments) tokenised by the real tokenize() with a parent "
     "token at a random base offset, compared with the Lean scanner token by token (kind, value, start) and match by "
     "match (every _RE match incl. white space). liquidlines: bodies of {% liquid %} tags (random indentation, CR/LF, "
-    "blank lines, comment lines, illegal lines) through the real _tokenize_liquid_expression for six comment-marker "
-    "configurations. errctx: texts over every str.splitlines boundary, every index 0..len+1 through _error_context and "
+    "blank lines, comment lines, illegal lines) through the real _tokenize_liquid_expression for eight comment-marker "
+    "configurations. liquidparse: whole templates with a {% liquid %} tag whose body has LF, CRLF or mixed line endings "
+    "through Environment.from_string with the tag's tokenizer wrapped by a recorder: the text LiquidTag.parse hands to "
+    "the tokenizer must be the expression token's text, every inner token must slice in the TEMPLATE source, and the "
+    "recorded inner tokens are compared with the Lean line scanner run on (token text, token start). errctx: texts over every str.splitlines boundary, every index 0..len+1 through _error_context and "
     "Span.line_col. lexspans: piece-level templates assembled with default and custom delimiters through the real "
     "lexer, token start offsets compared with the model. charclass: every code point below U+0100 (re classes) and "
     "below U+3000 (line boundaries). spans (no model): generated multi-line programs with liquid tags, nested paths, "
-    "filters and partials through BoundTemplate.analyze and Environment.analyze_tags; every reported Span is sliced in "
-    "the NAMED template's source. errors: malformed sources (also malformed partials reached at render time): str(err) "
+    "filters and partials, with LF / CRLF / mixed line endings and lone CRs, through BoundTemplate.analyze, "
+    "analyze_async, Environment.analyze_tags_from_string, analyze_tags and analyze_tags_async (the last two through a "
+    "loader); every reported Span is sliced in the NAMED template's source. errors: malformed sources (also malformed partials reached at render time): str(err) "
     "must not raise and the error must carry an index inside its own source; the model's detailed_message "
     "classification (bare / located line:col / raises) is compared. Non-trivial: exprlex >= 3 tokens or an error; "
     "liquidlines >= 2 inner tokens; errctx text with >= 2 lines; spans: >= 5 spans of which one beyond the first line or "
@@ -234,6 +238,100 @@ class LiquidLinesStream(Stream):
 
     def tags(self, case, obs):
         return ["marker=" + (case["cs"] or "off"), "error" if obs["error"] else "ok"]
+
+
+class LiquidParseStream(Stream):
+    """A whole template with a {% liquid %} tag through Environment.from_string: what LiquidTag.parse hands to
+    its line tokenizer and the inner tokens it gets back, recorded by wrapping the tag's tokenizer."""
+
+    name = "liquidparse"
+
+    def cases(self, ctx):
+        rng = ctx.rng_for("liquidparse")
+        out = []
+        for cs in ("", "{#", "{//"):
+            for body in ("echo 1\r\necho 2", "if x\r\n  echo 'a'\r\nendif\r\n", "assign a = 1\n\r\necho a\r", "echo 1\recho 2", "echo 1 \r\n\r\n echo b | upcase\n"):
+                out.append({"cs": cs, "pre": "x\r\n", "open": "{% liquid ", "body": body, "close": "%}", "post": "\ny"})
+        for _ in range(ctx.scale(500, 5000)):
+            cs = rng.choice(["", "", "{#", "{//"])
+            mk = cs.replace("{", "") or "#"
+            body = gen_liquid_body(rng, mk)
+            style = rng.below(4)
+            if style == 1:
+                body = body.replace("\r\n", "\n").replace("\n", "\r\n")
+            elif style == 2:
+                body = "".join((rng.choice(["\n", "\r\n"]) if c == "\n" else c) for c in body)
+            if "%}" in body or "{{" in body or "{%" in body or (cs and (cs in body or "#}" in body or "//}" in body)):
+                continue
+            out.append({"cs": cs, "pre": rng.choice(["", "text ", "a\r\nb ", "é\n\n", "{{ x }}\r\n"]), "open": "{%" + rng.choice(["", "-"]) + rng.choice([" ", "\n", "\r\n  "]) + "liquid" + rng.choice([" ", "\n", "\r\n", "\n  "]),
+                        "body": body, "close": rng.choice(["", " ", "\n", "\r\n"]) + rng.choice(["", "-"]) + "%}", "post": rng.choice(["", " tail", "\r\n{{ y }}"])})
+        return out
+
+    def impl(self, case):
+        from liquid import Environment
+        from liquid.exceptions import LiquidError, LiquidSyntaxError
+
+        cs = case["cs"]
+        env = Environment(template_comments=bool(cs), comment_start_string=cs or "{#", comment_end_string={"": "#}", "{#": "#}", "{//": "//}"}[cs])
+        tag = env.tags["liquid"]
+        orig = tag._tokenize
+        calls = []
+
+        def recording(source, token):
+            rec = {"given": source, "expr": [token.value, token.start_index], "inner": [], "error": False}
+            calls.append(rec)
+            try:
+                for t in orig(source, token=token):
+                    rec["inner"].append([t.kind, t.value, t.start_index])
+                    yield t
+            except LiquidSyntaxError:
+                rec["error"] = True
+                raise
+
+        tag._tokenize = recording
+        src = case["pre"] + case["open"] + case["body"] + case["close"] + case["post"]
+        parse = "ok"
+        try:
+            env.from_string(src)
+        except LiquidError as e:
+            parse = type(e).__name__
+        return {"source": src, "calls": calls[:1], "parse": parse}
+
+    def line_obs(self, case, obs):
+        if not obs["calls"]:
+            return None
+        c = obs["calls"][0]
+        return ["liquidlines", case["cs"], c["expr"][1], c["expr"][0]]
+
+    def compare_view(self, case, obs):
+        c = obs["calls"][0]
+        return {"tokens": c["inner"], "error": c["error"]}
+
+    def canon_model(self, case, mobs):
+        return dp.unwrap(mobs)
+
+    def oracle(self, case, obs):
+        src = obs["source"]
+        for c in obs["calls"]:
+            value, start = c["expr"]
+            if src[start : start + len(value)] != value:
+                return ("liquidparse|expression|offset", f"the liquid tag's expression token is reported at {start} but the source there is {src[start:start+12]!r}")
+            if c["given"] != value:
+                return ("liquidparse|body-not-token-text", "LiquidTag.parse tokenises a text that is not the expression token's text, so inner offsets (token.start_index + offset in that text) do not index the source")
+            for kind, v, st in c["inner"]:
+                if src[st : st + len(v)] != v:
+                    return (f"liquidparse|{kind}|offset", f"inner token {kind} {v!r} reported at {st}; the template source there is {src[st:st+12]!r}")
+        return None
+
+    def nontrivial(self, case, obs):
+        return bool(obs["calls"]) and len(obs["calls"][0]["inner"]) >= 2 and "\n" in obs["calls"][0]["expr"][0]
+
+    def tags(self, case, obs):
+        body = case["body"]
+        t = ["crlf" if "\r\n" in body else "lf", "parse:" + obs["parse"], "marker=" + (case["cs"] or "off")]
+        if not obs["calls"]:
+            t.append("no_body")
+        return t
 
 
 _LINES_ENVS: dict = {}
@@ -467,20 +565,33 @@ def gen_multiline_program(rng):
 
     prog = gen_program(rng, max_depth=rng.choice([2, 3]))
     # make it multi-line: text pieces get line breaks, tags get inner line breaks
+    def eol(text, r, style):
+        """Rewrite the LF line breaks of `text`: CRLF, or each one independently LF / CRLF."""
+        if style == "lf":
+            return text
+        if style == "crlf":
+            return text.replace("\n", "\r\n")
+        return "".join((r.choice(["\n", "\r\n"]) if c == "\n" else c) for c in text)
+
     def spread(src, r):
         out = []
+        style = r.choice(["lf", "lf", "crlf", "mixed", "mixed"])  # per template
         for p in dp.split_source(src):
             if p[0] == "text" and r.chance(50):
-                p = ["text", p[1] + r.choice(["\n", "\r\n", "\n\n  ", "é\n"])]
-            elif p[0] == "tag" and p[3] not in ("liquid", "#") and r.chance(30):
-                p = [*p[:2], r.choice(["\n", "\n  ", " "]), *p[3:]]
+                p = ["text", p[1] + r.choice(["\n", "\r\n", "\n\n  ", "é\n", "\r", "\r\r\n", "\n\r"])]
+            elif p[0] == "tag" and p[3] == "liquid":
+                # line endings inside {% liquid %}: LF, CRLF or mixed; a lone CR only as trailing white space
+                p = [*p[:4], eol(p[4], r, style), eol(p[5], r, style), eol(p[6], r, style) + r.choice(["", "", "\r", "\r\n"]), p[7]]
+            elif p[0] == "tag" and p[3] != "#" and r.chance(30):
+                p = [*p[:2], r.choice(["\n", "\n  ", " ", "\r\n", "\r"]), *p[3:]]
             elif p[0] == "out" and r.chance(30):
-                p = [p[0], p[1], r.choice(["\n ", "  "]), *p[3:]]
+                p = [p[0], p[1], r.choice(["\n ", "  ", "\r\n ", "\r"]), *p[3:]]
             out.append(p)
-        if r.chance(40):
+        if r.chance(45):
             lines = ["assign zz = a | append: 'q' | upcase", "if zz and user.name", "  echo user.name | downcase", "  for w in items", "    echo w | size",
-                     "  endfor", "endif", "", "capture cc", "echo x[y.z]['k'] | default: n", "endcapture"]
-            out.append(["tag", False, " ", "liquid", "\n  ", "\n  ".join(lines), "\n", False])
+                     "  endfor", "endif", "capture cc", "echo x[y.z]['k'] | default: n", "endcapture"]
+            body = eol("\n  ".join(lines), r, style)
+            out.append(["tag", False, " ", "liquid", eol("\n  ", r, style), body, eol("\n", r, style), False])
         return dp.assemble(dp.DEFAULT, dp.normalize(out))
 
     try:
@@ -523,7 +634,9 @@ class SpansStream(Stream):
         prog = case["prog"]
         srcs = dict(prog["partials"])
         srcs["main"] = prog["source"]
-        env = make_env(prog)
+        from liquid import DictLoader
+
+        env = make_env(prog, loader=DictLoader(dict(srcs)))
         try:
             t = env.from_string(prog["source"], name="main")
         except LiquidError as e:
@@ -544,38 +657,51 @@ class SpansStream(Stream):
                 except ValueError:
                     bad.append(rec + ["line_col-raises"])
 
+        from ..impl.render import run_async
+
         analyses = []
-        try:
-            analyses.append(("sync", t.analyze(include_partials=True)))
-        except LiquidError as e:
-            analyses.append(("sync", None))
-        for _, a in analyses:
+        for api, fn in (("analyze", lambda: t.analyze(include_partials=True)), ("analyze_async", lambda: run_async(lambda: t.analyze_async(include_partials=True)))):
+            try:
+                analyses.append((api, fn()))
+            except LiquidError:
+                analyses.append((api, None))
+        for api, a in analyses:
             if a is None:
                 continue
             for kind, m in (("variables", a.variables), ("globals", a.globals), ("locals", a.locals)):
                 for vs in m.values():
                     for v in vs:
                         root = v.segments[0]
-                        chk(kind, str(root) if not isinstance(root, list) else "[", v.span, isinstance(root, list))
+                        chk(f"{api}.{kind}", str(root) if not isinstance(root, list) else "[", v.span, isinstance(root, list))
             for k, ss in a.filters.items():
                 for s in ss:
-                    chk("filters", k, s)
+                    chk(f"{api}.filters", k, s)
             for k, ss in a.tags.items():
                 for s in ss:
-                    chk("tags", k, s)
-        for nm, src in srcs.items():
-            ta = env.analyze_tags_from_string(src, name=nm)
+                    chk(f"{api}.tags", k, s)
+
+        def chk_tags(api, ta):
             for label, m in (("all_tags", ta.all_tags), ("tags", ta.tags), ("unclosed", ta.unclosed_tags), ("unexpected", ta.unexpected_tags), ("unknown", ta.unknown_tags)):
                 for k, ss in m.items():
                     for s in ss:
-                        chk("tagaudit." + label, k, s)
+                        chk(f"{api}.{label}", k, s)
+
+        for nm, src in srcs.items():
+            chk_tags("analyze_tags_from_string", env.analyze_tags_from_string(src, name=nm))
+            # through the loader (the Span must name the template the loader resolved)
+            for api, fn in (("analyze_tags", lambda: env.analyze_tags(nm)), ("analyze_tags_async", lambda: run_async(lambda: env.analyze_tags_async(nm)))):
+                try:
+                    chk_tags(api, fn())
+                except LiquidError:
+                    bad.append([api, nm, nm, -1, "loader-raises"])
         multiline = sum(1 for s in spans if s[2] != "main" or "\n" in srcs["main"][: s[3]])
-        return {"n": len(spans), "later_or_partial": multiline, "bad": bad[:5], "kinds": sorted({s[0] for s in spans}), "analysis": analyses[0][1] is not None}
+        crlf = any("\r" in v for v in srcs.values())
+        return {"n": len(spans), "later_or_partial": multiline, "bad": bad[:5], "kinds": sorted({s[0] for s in spans}), "analysis": analyses[0][1] is not None, "cr": crlf}
 
     def oracle(self, case, obs):
         if obs.get("bad"):
             b = obs["bad"][0]
-            return (f"spans|{b[0].split('.')[0]}|{'mismatch' if b[4].startswith('at ') else b[4]}", f"{b[0]} {b[1]!r} reported at {b[2]!r}:{b[3]} — {b[4]}")
+            return (f"spans|{b[0]}|{'mismatch' if b[4].startswith('at ') else b[4]}", f"{b[0]} {b[1]!r} reported at {b[2]!r}:{b[3]} — {b[4]}")
         return None
 
     def nontrivial(self, case, obs):
@@ -584,7 +710,7 @@ class SpansStream(Stream):
     def tags(self, case, obs):
         if "parse_error" in obs:
             return ["parse_error"]
-        return ["analysed" if obs["analysis"] else "analysis_error"] + ["kind:" + k.split(".")[0] for k in obs["kinds"]]
+        return ["analysed" if obs["analysis"] else "analysis_error", "has_CR" if obs.get("cr") else "LF_only"] + sorted({"api:" + k.split(".")[0] for k in obs["kinds"]})
 
 
 # ---- parse errors ------------------------------------------------------------------------------------
@@ -716,4 +842,4 @@ class ErrorsStream(Stream):
 
 
 def streams(ctx):
-    return [CharClassStream(), ExprLexStream(), LiquidLinesStream(), ErrCtxStream(), LexSpansStream(), SpansStream(), ErrorsStream()]
+    return [CharClassStream(), ExprLexStream(), LiquidLinesStream(), LiquidParseStream(), ErrCtxStream(), LexSpansStream(), SpansStream(), ErrorsStream()]
